@@ -131,6 +131,9 @@ func vhCommandTable() []vhCmd {
 		{[]string{"JDEL", "user", "u1", "name"}, vhWrite, nil},
 		{[]string{"SETCHAN", "ch2", "WITHIN", "fleet", "FENCE", "BOUNDS", "0", "0", "1", "1"}, vhWrite, nil},
 		{[]string{"DELCHAN", "ch1"}, vhWrite, nil},
+		{[]string{"SETCHAN", "ch3", "META", "m", "1", "EX", "500", "NEARBY", "fleet", "FENCE", "POINT", "1", "1", "100"}, vhWrite, nil},
+		{[]string{"SETHOOK", "hk1", "http://h/", "META", "owner", "me", "EX", "900", "WITHIN", "fleet", "FENCE", "DETECT", "enter,exit", "BOUNDS", "0", "0", "2", "2"}, vhWrite, nil},
+		{[]string{"SETCHAN", "ch1", "META", "m", "2", "NEARBY", "fleet", "FENCE", "POINT", "33", "-115", "1000"}, vhWrite, nil},
 		{[]string{"PDELCHAN", "ch*"}, vhWrite, nil},
 		{[]string{"DELHOOK", "ch1"}, vhWrite, nil},
 		{[]string{"PDELHOOK", "*"}, vhWrite, nil},
